@@ -22,8 +22,8 @@ var formatDecoders = map[string]string{
 }
 
 var formatNewDecoder = map[string]string{
-	"(*gopkg.in/yaml.v2.Decoder).Decode":              "gopkg.in/yaml.v2.NewDecoder",
-	"(*encoding/json.Decoder).Decode":                 "encoding/json.NewDecoder",
+	"(*gopkg.in/yaml.v2.Decoder).Decode":             "gopkg.in/yaml.v2.NewDecoder",
+	"(*encoding/json.Decoder).Decode":                "encoding/json.NewDecoder",
 	"(*github.com/pelletier/go-toml.Decoder).Decode": "github.com/pelletier/go-toml.NewDecoder",
 }
 
@@ -374,6 +374,46 @@ func checkC16(c *an.Ctx) {
 			}
 		})
 	}
+	// decode hooks written in the module see the decoder's dynamic types (yaml: int, toml: int64, json: float64):
+	// a hook that turns the raw value into text by its dynamic type makes the three formats load differently
+	for _, fn := range p.Funcs {
+		if !an.InModule(fn) || fn.Blocks == nil || !isDecodeHook(fn.Signature) {
+			continue
+		}
+		data := fn.Params[len(fn.Params)-1]
+		for _, ret := range an.Returns(fn) {
+			for _, src := range an.Sources(an.RetVal(ret, 0)) {
+				if mi, ok := src.(*ssa.MakeInterface); ok {
+					src = mi.X
+				}
+				for _, s2 := range an.Sources(src) {
+					call, ok := s2.(*ssa.Call)
+					if !ok {
+						continue
+					}
+					name := an.ShortCallee(&call.Call)
+					if !(strings.HasPrefix(name, "fmt.Sprint") || strings.HasPrefix(name, "strconv.Format")) {
+						continue
+					}
+					dep := false
+					for _, a := range call.Call.Args {
+						if an.ParamDeps(a)[data] {
+							dep = true
+						}
+						for _, e := range an.VariadicElems(a) {
+							if e != nil && an.ParamDeps(e)[data] {
+								dep = true
+							}
+						}
+					}
+					if dep {
+						clean = false
+						c.Bad("C16.3", an.Short(fn)+":renders-raw-value", call.Pos(), "the decode hook %s turns the raw value into text with %s: the text depends on the dynamic type the decoder produced (a number is int from YAML, int64 from TOML and float64 from JSON — 20260927 becomes 2.0260927e+07 only there)", an.Short(fn), name)
+					}
+				}
+			}
+		}
+	}
 	if clean {
 		c.OK("C16.3", "internal/config:format-blind", token.NoPos, "no function of internal/config besides unmarshalData/readFile/readURL consults extensions, content types or decoder-specific types")
 	}
@@ -384,4 +424,27 @@ func checkC16(c *an.Ctx) {
 			}
 		})
 	}
+}
+
+// isDecodeHook reports whether sig has the shape of a mapstructure DecodeHookFunc.
+func isDecodeHook(sig *types.Signature) bool {
+	if sig.Params().Len() != 3 || sig.Results().Len() != 2 {
+		return false
+	}
+	if _, ok := sig.Params().At(2).Type().Underlying().(*types.Interface); !ok {
+		return false
+	}
+	if _, ok := sig.Results().At(0).Type().Underlying().(*types.Interface); !ok {
+		return false
+	}
+	if !an.IsErrorType(sig.Results().At(1).Type()) {
+		return false
+	}
+	for i := 0; i < 2; i++ {
+		t := sig.Params().At(i).Type().String()
+		if t != "reflect.Type" && t != "reflect.Kind" {
+			return false
+		}
+	}
+	return true
 }
